@@ -1,17 +1,39 @@
 ENTRY = {
     "C14": dict(
         pkg="c14", level="fault_enumeration",
-        technique="recording underlying writer as ground truth + exhaustive enumeration of short call sequences x writer capability families x byte limits "
-                  "+ rapid random sequences up to length 8 + differential between writers with and without the optional fast paths",
-        level_text="TODO",
-        level_note="TODO",
-        rule="TODO",
-        assumptions=[],
+        technique="recording underlying http.ResponseWriter as ground truth (codes received, bytes accepted, flush/capability calls) "
+                  "+ exhaustive enumeration of short call sequences x 21 writer capability families x byte limits x source fault points "
+                  "+ rapid random sequences up to length 8 + differential between sibling writers that differ only in the optional fast paths",
+        level_text="Call sequences on c.Writer() (WriteHeader with informational, 101, final and repeated codes; Write; WriteString; ReadFrom; "
+                   "FlushError; Push; deadlines; EnableFullDuplex; Hijack last) are run inside a handler during ServeHTTP on a fresh router. The "
+                   "underlying writer is a recording writer from 21 concrete types (plain, each single capability, ReaderFrom combined with "
+                   "Flusher/FlushError/StringWriter, all, all but one) that accepts at most k body bytes in total (k in {0,1,3,6,unlimited}); ReadFrom "
+                   "sources yield j bytes and then end or fail (j from 0, error with or after the last bytes, 1-2 bytes per Read). After EVERY call "
+                   "Status/Size/Written are compared with what the recording writer really received, together with: at most one final status, none "
+                   "after an accepted body byte, accepted bytes equal to the prefix of everything offered, first header call forwarded exactly once, "
+                   "capability calls delegated once with the same arguments and result or answered with an error matching http.ErrNotSupported. The same "
+                   "sequence is re-run on every sibling family that differs only in ReaderFrom / StringWriter / Flush-vs-FlushError and the per-step answers, "
+                   "delivered bytes and effective status must be equal. All sequences up to the length in notes over a 13-symbol alphabet are enumerated for "
+                   "all families and limits {0,1,3,unlimited}; longer sequences are sampled. String/Blob/Stream/Redirect are checked on the same writers "
+                   "for status, Content-Type (Blob, Stream), bytes, Location and the 300..308 guard.",
+        level_note="The fault points are those of the model writer (a total byte budget; once full it stays full) and of the model source; a writer that fails and "
+                   "later recovers is not modelled. Not judged, because the property does not state it: the n/err values returned by Write/WriteString/ReadFrom, "
+                   "whether FlushError forwards a header before flushing (only that Flusher and FlushError writers agree), what happens to header calls that arrive "
+                   "after the response is written other than 'no second final status', the Content-Type chosen by String, the body written by Redirect, anything "
+                   "after a successful Hijack. One differential corner is excluded and counted: first body bytes arriving through ReadFrom at a writer that "
+                   "accepts zero bytes (the fallback necessarily forwards a header before the failing write, the fast path cannot); both runs are still "
+                   "judged against their own ground truth. Env knob C14_NO_READFROM=1 (sensitivity experiments only) removes ReadFrom/Stream from the generators.",
+        rule="cases: (writer family, byte limit, capability-error flag, call sequence with arguments) and (writer family, limit, helper call); non-trivial = the "
+             "sequence contains a ReadFrom, or a write the underlying writer only partly accepted, or a failing source, or a header call after an accepted body "
+             "byte (helpers: Stream, or a partly accepted body); distinct by the JSON of the case",
+        assumptions=["the underlying writer is a conforming http.ResponseWriter whose Write/ReadFrom report the number of bytes they accepted",
+                     "'forwarded' means an explicit WriteHeader call on the underlying writer; a body byte accepted without such a call implies status 200",
+                     "handler uses the writer from one goroutine and not after Hijack succeeded"],
         quick=[REPLAY,
                R("exhaustive", "^TestExhaustive$", env={"C14_EXH_LEN": 3, "C14_EXH_CAPLEN": 2}, timeout=600),
                R("random", "^(TestRandom|TestHelpers)$", checks=50000, timeout=600)],
         thorough=[REPLAY,
                   R("exhaustive", "^TestExhaustive$", shards=16, env={"C14_EXH_LEN": 4, "C14_EXH_CAPLEN": 3}, timeout=3000),
-                  R("random", "^(TestRandom|TestHelpers)$", checks=100000, shards=16, timeout=3000)],
+                  R("random", "^(TestRandom|TestHelpers)$", checks=150000, shards=16, timeout=3000)],
     ),
 }
